@@ -285,7 +285,9 @@ impl SourceMap {
             .unwrap();
         let chunk_offset = global_range.start - chunk.start;
         let range_start = *local_offset + chunk_offset;
-        let len = global_range.end - global_range.start;
+        // a range that continues into an included file can only be reported up to
+        // the end of the chunk it starts in
+        let len = (global_range.end - global_range.start).min(chunk.end - global_range.start);
         (*file, range_start..range_start + len)
     }
 }
